@@ -369,8 +369,58 @@ def run_nonlinear(c, rec):
     require(isinstance(xm, cuqi.array.CUQIarray), "MAP estimate is not a CUQIarray")
 
 
+# ----------------------------------------------------------------------------- a prior with bounded support
+
+@st.composite
+def bounded_cases(draw, tier="quick"):
+    n = draw(st.integers(1, 3))
+    return {"n": n, "a": draw(st.lists(st.sampled_from([1.5, 2.0, 3.0, 5.0]), min_size=n, max_size=n)),
+            "b": draw(st.lists(st.sampled_from([1.5, 2.0, 3.0, 5.0]), min_size=n, max_size=n)),
+            "data": draw(gen.vec(n, 0.1, 0.9)), "nvar": draw(st.sampled_from([0.01, 0.1, 1.0])),
+            "start": draw(st.sampled_from(["default", "default", "inside", "corner0"])), "x0": draw(gen.vec(n, 0.2, 0.8)),
+            "probe": draw(gen.vec(n, -1, 1))}
+
+
+def run_bounded(c, rec):
+    """non-Gaussian prior (Beta on (0,1)^n), identity model, Gaussian noise: the unimodal posterior is maximised by the optimisation
+    route. The default start vector (ones) lies on the boundary of the support where the posterior density is zero: the call must
+    either fail or return a maximiser - never a point of zero density."""
+    import cuqi
+    from scipy.optimize import minimize
+    n = c["n"]
+    if rec.classify({"start": c["start"], "n": n}, True):
+        return
+    a, b, data, nv = A(c["a"]), A(c["b"]), A(c["data"]), c["nvar"]
+    x = cuqi.distribution.Beta(a, b, name="x")
+    M = cuqi.model.Model(lambda x: x, n, n, gradient=lambda direction, wrt: direction)
+    y = cuqi.distribution.Gaussian(M(x), nv, name="y")
+    BP = must(lambda: cuqi.problem.BayesianProblem(y, x).set_data(y=data), "building the problem")
+    kw = {"inside": {"x0": A(c["x0"])}, "corner0": {"x0": np.zeros(n)}}.get(c["start"], {})
+    refused, xm = refuses(lambda: BP.MAP(disp=False, **kw))
+    if refused:
+        rec.count("MAP_failed:" + type(xm).__name__)
+        require(c["start"] != "inside", f"MAP from a start inside the support failed: {type(xm).__name__}: {xm}")
+        return
+    xm_arr = np.asarray(xm, dtype=float)
+
+    def nlp(z):
+        if np.any(z <= 0) or np.any(z >= 1):
+            return np.inf
+        return float(0.5 * np.sum((z - data) ** 2) / nv - np.sum((a - 1) * np.log(z) + (b - 1) * np.log1p(-z)))
+    best = None
+    for s0 in (A(c["x0"]), np.full(n, 0.5), np.clip(data, 0.05, 0.95)):
+        r = minimize(nlp, s0, method="Nelder-Mead", options={"xatol": 1e-10, "fatol": 1e-13, "maxiter": 20000})
+        if best is None or r.fun < best.fun:
+            best = r
+    require(np.isfinite(nlp(xm_arr)), "MAP returned a point where the posterior density is zero (outside / on the boundary of the support) "
+            "instead of failing", estimate=xm_arr, start=c["start"], info=str(getattr(xm, "info", None))[:300])
+    require(nlp(xm_arr) <= best.fun + 1e-5 * (1 + abs(best.fun)), "MAP with a bounded-support prior: a point with a larger posterior density exists",
+            estimate=xm_arr, better=best.x, value_at_estimate=-nlp(xm_arr), best=-best.fun)
+
+
 SUBCHECKS = [
     SubCheck("C15/linear_gaussian", run_linear, strategy=lg_cases, n={"quick": 600, "thorough": 15000}, shards={"quick": 8, "thorough": 16}),
     SubCheck("C15/nonlinear_map", run_nonlinear, strategy=nl_cases, n={"quick": 120, "thorough": 3000}, shards={"quick": 8, "thorough": 16},
              shrink=False),
+    SubCheck("C15/bounded_prior_map", run_bounded, strategy=bounded_cases, n={"quick": 120, "thorough": 2000}, shards={"quick": 2, "thorough": 8}, shrink=False),
 ]
